@@ -927,6 +927,75 @@ def gen_find_task(sd):
 
 
 
+# ---- sd.py: ServiceInstance._offer_task (C10) ----
+def pow_delay(call_arg, what):
+    d = call_arg
+    if not (isinstance(d, ast.BinOp) and isinstance(d.op, ast.Mult) and isinstance(d.left, ast.BinOp) and isinstance(d.left.op, ast.Pow)
+            and isinstance(d.left.left, ast.Constant) and type(d.left.left.value) is int and d.left.left.value >= 0
+            and getattr(d.left.right, "id", None) == "i" and dotted(d.right) == "self.timings.REPETITIONS_BASE_DELAY"):
+        raise Abort(what + ": unexpected repetition delay")
+    return d.left.left.value
+
+
+def sleep_arg(st, what):
+    if not (isinstance(st, ast.Expr) and isinstance(st.value, ast.Await) and isinstance(st.value.value, ast.Call)
+            and dotted(st.value.value.func) == "asyncio.sleep" and len(st.value.value.args) == 1 and not st.value.value.keywords):
+        raise Abort(what + ": unexpected sleep")
+    return st.value.value.args[0]
+
+
+def gen_offer_task(sd):
+    t = ast.parse(textwrap.dedent(inspect.getsource(sd.ServiceInstance._offer_task))).body[0]
+    if not isinstance(t, ast.AsyncFunctionDef) or [a.arg for a in t.args.args] != ["self"]:
+        raise Abort("_offer_task: not a coroutine of self")
+    b = [s for s in body_of(t) if not is_noise(s)]
+    # the warning about CYCLIC_OFFER_DELAY vs TTL: an if whose body only logs
+    b = [s for s in b if not (isinstance(s, ast.If) and not s.orelse and all(is_noise(x) for x in s.body))]
+    if len(b) != 4:
+        raise Abort("_offer_task: unexpected shape")
+    expect_src(b[0], "ttl = self.timings.ANNOUNCE_TTL", "_offer_task (ttl)")
+    expect_src(b[1], """
+        await asyncio.sleep(random.uniform(self.timings.INITIAL_DELAY_MIN, self.timings.INITIAL_DELAY_MAX))
+        """, "_offer_task (initial delay)")
+    expect_src(b[2], "self._send_offer()", "_offer_task (first offer)")
+    tr = b[3]
+    if not (isinstance(tr, ast.Try) and len(tr.body) == 4 and len(tr.handlers) == 1 and not tr.orelse and len(tr.finalbody) == 1):
+        raise Abort("_offer_task: unexpected try")
+    expect_src(tr.body[0], "self._can_answer_offers = True", "_offer_task (can answer)")
+    lp = tr.body[1]
+    if not (isinstance(lp, ast.For) and not lp.orelse and len(lp.body) == 2):
+        raise Abort("_offer_task: unexpected loop")
+    expect_src(ast.Expr(lp.target), "i", "_offer_task (loop variable)")
+    expect_src(ast.Expr(lp.iter), "range(self.timings.REPETITIONS_MAX)", "_offer_task (loop range)")
+    base = pow_delay(sleep_arg(lp.body[0], "_offer_task"), "_offer_task")
+    expect_src(lp.body[1], "self._send_offer()", "_offer_task (repetition)")
+    expect_src(tr.body[2], """
+        if not self.timings.CYCLIC_OFFER_DELAY:
+            return
+        """, "_offer_task (not cyclic)")
+    expect_src(tr.body[3], """
+        while True:
+            await asyncio.sleep(self.timings.CYCLIC_OFFER_DELAY)
+            self._send_offer()
+        """, "_offer_task (cyclic phase)")
+    h = tr.handlers[0]
+    expect_src(ast.Expr(h.type), "asyncio.CancelledError", "_offer_task (handler)")
+    if h.name is not None or len(h.body) != 2:
+        raise Abort("_offer_task: unexpected handler")
+    expect_src(h.body[0], "self._can_answer_offers = False", "_offer_task (cancelled)")
+    expect_src(h.body[1], "raise", "_offer_task (re-raise)")
+    expect_src(tr.finalbody[0], """
+        if self.timings.CYCLIC_OFFER_DELAY:
+            self._send_offer(stop=True)
+        """, "_offer_task (finally)")
+    return ["(* ServiceInstance._offer_task after the offer of loop index i: the next repetition, return (not cyclic), or the cyclic phase;\n"
+            "   and what the finally clause does when the task is cancelled inside the try block *)\n"
+            "Definition gen_offer_next {W : Type} (i rep_max base_delay cyclic : N) (sleep_rep : N -> W) (ret : W) (sleep_cyclic : N -> W) : W :=\n"
+            f"  if i <? rep_max then sleep_rep (N.pow {base} i * base_delay) else if cyclic =? 0 then ret else sleep_cyclic cyclic.\n"
+            "Definition gen_offer_finally_sends_stop (cyclic : N) : bool := negb (cyclic =? 0).\n"]
+
+
+
 # ---- sd.py: ServiceDiscoveryProtocol.send_sd / start / stop (C08, C15) ----
 def kw_of(call, name):
     for k in call.keywords:
@@ -1228,7 +1297,7 @@ def main():
         import someip.config as cfg
         import someip.sd as sd
         import someip.service as svc
-        parts = gen_matchers(cfg) + gen_check_received(sd) + gen_assign_outgoing(sd) + gen_skeletons(sd) + gen_inst_subscribe(sd) + gen_subscriber(sd) + gen_timed_store(sd) + gen_queue_send(sd) + gen_find_answer(sd) + gen_protocol_entry(sd) + gen_send_sd(sd) + gen_announcer(sd) + gen_find_task(sd) + gen_service(svc) + gen_eventgroup_subscription(svc)
+        parts = gen_matchers(cfg) + gen_check_received(sd) + gen_assign_outgoing(sd) + gen_skeletons(sd) + gen_inst_subscribe(sd) + gen_subscriber(sd) + gen_timed_store(sd) + gen_queue_send(sd) + gen_find_answer(sd) + gen_protocol_entry(sd) + gen_send_sd(sd) + gen_announcer(sd) + gen_find_task(sd) + gen_offer_task(sd) + gen_service(svc) + gen_eventgroup_subscription(svc)
     except Abort as exc:
         print("gen_logic: ABORT:", exc)
         return 2
